@@ -47,7 +47,10 @@ RULE = (
     "the writer (txn.get, get_node, iterate_rdatasets) is kept and mutated by its owner after each commit; "
     "lock interleavings: after a history prefix, one call (reader by latest/id/serial, close, commit, policy change) runs with a "
     "wrapping _version_lock that counts its critical sections and lets a complete concurrent operation (writer transaction "
-    "with pruning, reader close, policy change) run at every release point inside the call"
+    "with pruning, reader close, policy change) run at every release point inside the call; relativized and absolute zones, "
+    "policies also given to the constructor, reader(id=, serial=) together; copy-on-write bookkeeping: after every operation of "
+    "2..4 write transactions (puts, NS above existing names, node deletes) version.changed and the set of private nodes are "
+    "compared with the model and delete-only transactions must produce a version"
 )
 TRUSTED_BASE = [
     "Python reference semantics: a read transaction keeps a reference to its version object",
@@ -1408,6 +1411,123 @@ LOCKHOOK_BOUNDARY = [
 ]
 
 
+
+# ------------------------------------------------------------------------------------------------
+# the copy-on-write bookkeeping of a write transaction (tie of Model.Versioned.CowState)
+# ------------------------------------------------------------------------------------------------
+def eval_cow(ctx: Ctx, case: dict):
+    """after every operation of every write transaction: which names are in `version.changed`, and which names have
+    a node object of their own (not the object of the version the transaction started from) - against the model;
+    and directly: a name not in `changed` must still carry the base version's (immutable) node object, a name in
+    `changed` must not"""
+    zk = case["zone"]
+    z = ZONES[zk](ORIGIN)
+    z.set_max_versions(None)
+    toks, outs, fails = [], [], []
+    idx = {n: i for i, n in enumerate(TREE_NAMES)}
+
+    def observe(txn, base_nodes):
+        v = txn.version
+        changed = sorted(idx[n] for n in v.changed)
+        fresh = sorted(idx[n] for n, node in v.nodes.items() if node is not base_nodes.get(n))
+        for n, node in v.nodes.items():
+            if n not in v.changed:
+                if node is not base_nodes.get(n):
+                    fails.append((f"C11/{zk}/cow/private-node-not-in-changed", f"{n} has a node of its own in the write transaction but is not in version.changed: it will be committed unfrozen"))
+                elif not node.is_immutable():
+                    fails.append((f"C11/{zk}/cow/shared-node-mutable", f"{n} is shared with the base version but its node is mutable"))
+            elif node is base_nodes.get(n):
+                fails.append((f"C11/{zk}/cow/changed-name-shares-node", f"{n} is in version.changed but still carries the base version's node object"))
+        j = lambda l: ",".join(map(str, l)) or "-"
+        return f"c{j(changed)}|f{j(fresh)}|v{len(z._versions)}"
+
+    expected = set()
+    for ti, ops in enumerate(case["txns"]):
+        repl = ti == 0
+        base_nodes = {} if repl else dict(z._versions[-1].nodes.items())
+        if repl:
+            expected = set()
+        effective = 0
+        txn = z.writer(repl)
+        toks.append("b1" if repl else "b0")
+        outs.append(observe(txn, base_nodes))
+        for op in ops:
+            kind, i = op[0], op[1]
+            name = TREE_NAMES[i]
+            v = txn.version
+            dels = getattr(v, "delegations", None)
+            was_cut = dels is not None and name in dels
+            exists = name in v.nodes
+            if kind == "del" and not exists:
+                continue
+            below = sorted(idx[n] for n in v.nodes.keys() if n != name and n.is_subdomain(name)) if i != 0 else []
+            try:
+                apply_wop(txn, ["delnode", i, 0] if kind == "del" else [("ns" if kind == "ns" else "txt"), i, op[2]])
+            except (KeyError, ValueError, dns.exception.DNSException):
+                ctx.count("cow.writer-op-refused")
+                break
+            is_cut = dels is not None and name in v.delegations
+            effective += 1
+            (expected.discard if kind == "del" else expected.add)(name)
+            if kind == "del":
+                if was_cut and below:
+                    toks.append("f0:" + ",".join(map(str, below)))
+                    outs.append(None)
+                toks.append(f"d{i}")
+            else:
+                toks.append(f"p{i}:{op[2]}")
+                if is_cut and not was_cut and below:
+                    outs.append(None)
+                    toks.append("f4:" + ",".join(map(str, below)))
+            outs.append(observe(txn, base_nodes))
+        nbefore = len(z._versions)
+        txn.commit()
+        toks.append("K")
+        outs.append(f"c-|f-|v{len(z._versions)}")
+        got = set(z._versions[-1].nodes.keys())
+        if effective and (len(z._versions) != nbefore + 1 or got != expected):
+            fails.append((f"C11/{zk}/cow/commit-lost-change",
+                          f"transaction {ti + 1} ({ops}) committed: {len(z._versions) - nbefore} new version(s), newest holds "
+                          f"{sorted(n.to_text() for n in got)}, expected {sorted(n.to_text() for n in expected)}"))
+    # intermediate model states inside one implementation call (between the put and the re-flagging) are not observable
+    keep = [k for k, o in enumerate(outs) if o is not None]
+    ctx.corr("c11.cow " + " ".join(toks) + " #" + ",".join(map(str, keep)), " ".join(["ok"] + [outs[k] for k in keep]), case)
+    ctx.count(f"cow.{zk}.ops", len(toks))
+    seen = set()
+    for sig, what in fails:
+        if sig not in seen:
+            seen.add(sig)
+            ctx.fail(sig, what, {"kind": "cow", "case": case})
+    return fails
+
+
+COW_BOUNDARY = [
+    # a transaction that only deletes a node must still produce a version
+    [[["put", 1, 1], ["put", 2, 2], ["put", 9, 3]], [["del", 9]], [["del", 2], ["del", 1]]],
+    # cut created above existing names, then removed by deleting the node
+    [[["put", 1, 1], ["put", 2, 2], ["put", 3, 3], ["put", 5, 4]], [["ns", 1, 5]], [["del", 1]]],
+]
+
+
+def gen_cow(rng, zk):
+    txns = []
+    c = rng.below(500)
+    for ti in range(rng.range(2, 4)):
+        ops = []
+        for _ in range(rng.range(1, 5) if ti else rng.range(4, 8)):
+            c += 1
+            x = rng.below(10)
+            i = rng.range(1, len(TREE) - 1)
+            if x < 5 or ti == 0:
+                ops.append(["put", i, c])
+            elif x < 8:
+                ops.append(["ns", rng.choice([1, 1, 2, 3, 6, 7]), c])
+            else:
+                ops.append(["del", i])
+        txns.append(ops)
+    return {"kind": "cow", "zone": zk, "txns": txns}
+
+
 class Hang(BaseException):
     pass
 
@@ -1434,6 +1554,8 @@ def eval_case(ctx: Ctx, case: dict):
             return eval_alias(ctx, case)
         if case["kind"] == "lockhook":
             return eval_lockhook(ctx, case)
+        if case["kind"] == "cow":
+            return eval_cow(ctx, case)
     except Exception as e:  # noqa: BLE001 - e.g. the zone constructor itself raises (the initial version is pruned away)
         import traceback
 
@@ -1587,6 +1709,10 @@ BOUNDARY = [
 
 
 def generate(ctx: Ctx, scale: int, rng):
+    for i in range(120 * scale):
+        c = gen_cow(rng, "btree" if i % 3 else "versioned")
+        ctx.case(case_key(c), True, sample=c if i < 2 else None)
+        eval_case(ctx, c)
     for i in range(150 * scale):
         c = gen_lockhook(rng, "btree" if i % 2 else "versioned")
         ctx.case(case_key(c), True, sample=c if i < 2 else None)
@@ -1624,6 +1750,12 @@ def run(ctx: Ctx):
             ctx.case(case_key(c))
             eval_case(ctx, c)
     for zk in ZONES:
+        for txns in COW_BOUNDARY:
+            c = {"kind": "cow", "zone": zk, "txns": txns}
+            ctx.case(case_key(c))
+            eval_case(ctx, c)
+            ctx.count("boundary.cow")
+    for zk in ZONES:
         for b in LOCKHOOK_BOUNDARY:
             c = dict(b, kind="lockhook", zone=zk)
             ctx.case(case_key(c))
@@ -1658,7 +1790,7 @@ def replay(ctx: Ctx, obj: dict):
 
 
 LEVEL = {
-    "text": "Lean 4 theorems, by induction over arbitrary operation lists (reader open by latest/id/serial, close, writer open, commit, empty commit, rollback, set_max_versions, set_pruning_policy with an arbitrary predicate), about an executable model of dns/versioned.py's version deque, reader set and _prune_versions_unlocked: version ids strictly increase and are consecutive; the retained versions are a suffix of everything ever committed (a contiguous run containing the newest); every version pinned by an open reader is retained; for an arbitrary pure policy callable of (number retained, version) - monotone or not - pruning retains the longest suffix of the deque whose first version is not prunable at its turn (at or above the smallest pin / the newest, or refused by the policy), drops exactly the prefix before it, and in every reachable state nothing prunable is left at the front; reader(serial=) opens the newest retained version with that serial and reader(id=) the one with that id, KeyError exactly when there is none; what a reader observes never changes while it is open. The model is tied to both dns.versioned.Zone and dns.btreezone.Zone by a differential correspondence check after every operation. Immutability of everything reachable from a snapshot is established by enumerating, on every run, every public callable, in-place operator and attribute store of every reachable object and checking that mutating calls raise and nothing changes, both on a fixed snapshot and after generated write histories (cuts created/removed above existing names, nested cuts, node deletes) through every public route to every retained version's nodes (partial: enumeration, not proof).",
+    "text": "Lean 4 theorems, by induction over arbitrary operation lists (reader open by latest/id/serial, close, writer open, commit, empty commit, rollback, set_max_versions, set_pruning_policy with an arbitrary predicate), about an executable model of dns/versioned.py's version deque, reader set and _prune_versions_unlocked: version ids strictly increase and are consecutive; the retained versions are a suffix of everything ever committed (a contiguous run containing the newest); every version pinned by an open reader is retained; for an arbitrary pure policy callable of (number retained, version) - monotone or not - pruning retains the longest suffix of the deque whose first version is not prunable at its turn (at or above the smallest pin / the newest, or refused by the policy), drops exactly the prefix before it, and in every reachable state nothing prunable is left at the front; reader(serial=) opens the newest retained version with that serial and reader(id=) the one with that id, KeyError exactly when there is none; what a reader observes never changes while it is open. The model is tied to both dns.versioned.Zone and dns.btreezone.Zone by a differential correspondence check after every operation. Snapshot isolation is also proved by mechanism on a second model with node identity (a heap of cells shared between versions, writes hit cells; WritableVersion.changed, _maybe_cow_with_name, delete_node, B-tree update_glue_flag, ImmutableVersion freezing the changed names): every node of every committed version is frozen and no later transaction changes what a committed version shows; that model is tied to both zone classes by comparing version.changed and the set of private nodes after every writer operation. Python-level immutability of everything reachable from a snapshot is established by enumerating, on every run, every public callable, in-place operator and attribute store of every reachable object and checking that mutating calls raise and nothing changes, both on a fixed snapshot and after generated write histories (cuts created/removed above existing names, nested cuts, node deletes) through every public route to every retained version's nodes (partial: enumeration, not proof).",
     "note": "Trusted: Lean kernel + standard axioms; the statements in lean/Props/C11.lean; the correspondence harness and its generators; Python reference semantics (a transaction keeps its version object alive). Versions are persistent values in the model, so snapshot isolation is true by construction there and its real content is carried by the correspondence check and the enumeration. Writer admission under concurrency is C12.",
     "technique": "Lean 4 proof (state invariants by induction over operation lists, exact characterisation of the pruning loop) + model-vs-implementation correspondence + enumeration of the mutator surface",
     "design_ref": "DESIGN.md §7 C11",
